@@ -248,7 +248,8 @@ def statements(kind):
     S.append(("codecopy", 0, 0, 32))
     if full:
         # the return-data buffer is empty here (or holds what an earlier callx left): reading past its end halts, also with size 0 (EIP-211)
-        for (d, o, n) in ((0, 0, 0), (0, 1, 0), (0, 0, 32), (1, 2**200, 0)):
+        # (after a callx to the account that returns one word, non-zero source offsets read the middle of the buffer)
+        for (d, o, n) in ((0, 0, 0), (0, 1, 0), (0, 0, 32), (1, 2**200, 0), (0, 4, 8), (3, 16, 16), (0, 31, 1), (0, 16, 17)):
             S.append(("returndatacopy", d, o, n))
         S.append(("codecopy", 1, 2**20, 33))
     for op in ("MSIZE", "CALLDATASIZE", "CODESIZE", "RETURNDATASIZE", "SELFBALANCE") if full else ("MSIZE",):
